@@ -316,22 +316,18 @@ def main(argv):
     comps = []
     violations, undecided, notes = [], [], []
     known_hit = []
-    try:
-        for u in cfg.get("verus_units", []):
-            r = verus_unit(u, tier, seed)
-            comps.append(("verus", r))
-        for k in cfg.get("kani", []):
-            import kanimod
-            r = kanimod.run(k, tier, seed, pid)
-            comps.append(("kani", r))
-        for k in cfg.get("rac", []):
-            import racmod
-            r = racmod.run(pid, k, tier, seed)
-            comps.append(("rac", r))
-    except Undecided as e:
-        print(f"UNDECIDED property={pid}: {e}")
-        write_evidence(pid, tier, seed, cfg, comps, [], [str(e)], [], time.time() - t0, undecided_reason=str(e))
-        return 2
+    # every component runs even when another one is undecided: a violation found elsewhere must still be reported
+    for u in cfg.get("verus_units", []):
+        try:
+            comps.append(("verus", verus_unit(u, tier, seed)))
+        except Undecided as e:
+            undecided.append(str(e))
+    for k in cfg.get("kani", []):
+        import kanimod
+        comps.append(("kani", kanimod.run(k, tier, seed, pid)))
+    for k in cfg.get("rac", []):
+        import racmod
+        comps.append(("rac", racmod.run(pid, k, tier, seed)))
 
     obligations = discharged = 0
     fn_rows = []
@@ -366,7 +362,7 @@ def main(argv):
             served_fns = {x["fn"] for x in fn_rows if x["unit"] == r["unit"]}
             for fail in r["failures"]:
                 labs = labels_of(fail["labels"])
-                relevant = (serves(labs, pid) or (not labs and (fail["fn"] in served_fns or fail["fn"] is None or str(fail["fn"]).startswith("sidecar") or str(fail["fn"]).endswith(".rs"))))
+                relevant = (unit_serves_all or serves(labs, pid) or (not labs and (fail["fn"] in served_fns or fail["fn"] is None or str(fail["fn"]).startswith("sidecar") or str(fail["fn"]).endswith(".rs"))))
                 if not relevant:
                     notes.append(f"{r['unit']}::{fail['fn']} fails a clause labelled for another property ({fail['labels']}): {fail['msg']}")
                     continue
